@@ -97,6 +97,91 @@ class FuncInfo:
         return isinstance(other, FuncInfo) and other.key == self.key
 
 
+class _Normalise(ast.NodeTransformer):
+    """
+    Spelling variants that carry no meaning for the rules are brought to one form before anything looks at the tree:
+    inside function bodies ``x: T = v`` becomes ``x = v`` (the annotation is kept on the node as ``_annotation``),
+    so that a maintainer who turns type comments into annotations does not change what the rules see.
+    Class-level annotated assignments (dataclass fields) are left alone.
+    """
+
+    def __init__(self) -> None:
+        self.in_function = 0
+
+    def visit_FunctionDef(self, node):  # noqa: N802
+        self.in_function += 1
+        self.generic_visit(node)
+        self.in_function -= 1
+        return node
+
+    visit_AsyncFunctionDef = visit_FunctionDef
+
+    def visit_ClassDef(self, node):  # noqa: N802
+        saved, self.in_function = self.in_function, 0
+        self.generic_visit(node)
+        self.in_function = saved
+        return node
+
+    def visit_If(self, node):  # noqa: N802
+        """`if (n := len(x)) != (m := len(y)):` -> `n = len(x); m = len(y); if n != m:` (unconditionally evaluated walruses only)."""
+        self.generic_visit(node)
+        hoisted = []
+
+        def unconditional(expr, top=True):
+            # walrus targets that are evaluated whenever the test is evaluated, in evaluation order
+            if isinstance(expr, ast.NamedExpr):
+                unconditional(expr.value, False)
+                hoisted.append(expr)
+                return
+            if isinstance(expr, ast.BoolOp):
+                unconditional(expr.values[0], False)
+                return
+            if isinstance(expr, (ast.IfExp, ast.Lambda, ast.ListComp, ast.SetComp, ast.DictComp, ast.GeneratorExp)):
+                if isinstance(expr, ast.IfExp):
+                    unconditional(expr.test, False)
+                return
+            for child in ast.iter_child_nodes(expr):
+                if isinstance(child, ast.expr):
+                    unconditional(child, False)
+
+        unconditional(node.test)
+        if not hoisted or not self.in_function:
+            return node
+        ids = {id(h) for h in hoisted}
+
+        class Repl(ast.NodeTransformer):
+            def visit_NamedExpr(self, n):  # noqa: N802
+                self.generic_visit(n)
+                if id(n) in ids:
+                    return ast.copy_location(ast.Name(n.target.id, ast.Load()), n)
+                return n
+
+        pre = []
+        for h in hoisted:
+            inner = Repl().visit(h.value) if not isinstance(h.value, ast.NamedExpr) else ast.copy_location(ast.Name(h.value.target.id, ast.Load()), h.value)
+            st = ast.Assign([ast.Name(h.target.id, ast.Store())], inner, lineno=node.lineno, col_offset=node.col_offset)
+            st.end_lineno, st.end_col_offset, st.type_comment = node.lineno, node.col_offset, None
+            ast.fix_missing_locations(st)
+            pre.append(st)
+        node.test = Repl().visit(node.test)
+        return pre + [node]
+
+    def visit_AnnAssign(self, node):  # noqa: N802
+        self.generic_visit(node)
+        if self.in_function and node.value is not None:
+            new = ast.Assign([node.target], node.value, lineno=node.lineno, col_offset=node.col_offset)
+            new.end_lineno = getattr(node, "end_lineno", node.lineno)
+            new.end_col_offset = getattr(node, "end_col_offset", 0)
+            new.type_comment = None
+            new._annotation = node.annotation  # type: ignore[attr-defined]
+            return new
+        return node
+
+
+def normalise(tree: ast.AST) -> None:
+    _Normalise().visit(tree)
+
+
 def set_parents(tree: ast.AST) -> None:
     for parent in ast.walk(tree):
         for child in ast.iter_child_nodes(parent):
@@ -172,6 +257,7 @@ class Universe:
             tree = ast.parse(source, filename=path, type_comments=True)
         except SyntaxError as exc:
             raise AnalysisError(f"cannot parse {path}: {exc}") from exc
+        normalise(tree)
         set_parents(tree)
         mod = Module(modname, path, source, tree, external)
         self.modules[modname] = mod
